@@ -64,6 +64,12 @@ def init(repo: str, so_path: str | None, config: dict) -> None:
         mod = importlib.util.module_from_spec(spec)
         loader.exec_module(mod)
         sys.modules["pendulum._pendulum"] = mod
+    covdir = os.environ.get("PENDMC_COVERAGE")
+    if covdir:          # diagnostic only (selftest/coverage_report.py): which lines of pendulum do the checks execute
+        import coverage
+        cov = coverage.Coverage(data_file=None, include=[os.path.join(src, "pendulum", "*")])
+        cov.start()
+        CTX["cov"] = (cov, covdir)
     import pendulum
     import pendulum.helpers
     import pendulum.parsing
@@ -84,8 +90,11 @@ def init(repo: str, so_path: str | None, config: dict) -> None:
         pendulum.set_locale(amb["locale"])
     signal.signal(signal.SIGALRM, _alarm)
     signal.signal(signal.SIGPROF, _alarm)
+    keep = CTX.get("cov")
     CTX.clear()
     CTX.update(repo=repo, so=so_path, config=dict(config), tzpath=tzp)
+    if keep:
+        CTX["cov"] = keep
 
 
 def is_control(exc: BaseException) -> bool:
@@ -122,6 +131,16 @@ class guarded:
         return True
 
 
+def _dump_cov(modname):
+    import json
+    cov, covdir = CTX["cov"]
+    data = cov.get_data()
+    out = {os.path.relpath(f, os.path.join(CTX["repo"], "src")): sorted(data.lines(f) or []) for f in data.measured_files()}
+    os.makedirs(covdir, exist_ok=True)
+    with open(os.path.join(covdir, f"{modname}-{os.getpid()}.json"), "w") as f:
+        json.dump(out, f)
+
+
 def run(task):
     """task = (property module name, function name, argument)"""
     modname, fn, arg = task
@@ -138,3 +157,5 @@ def run(task):
         raise RuntimeError(f"worker aborted by {type(e).__name__}: {str(e)[:200]} (shard {str(arg)[:200]})") from None
     finally:
         horizon_off()
+        if CTX.get("cov"):
+            _dump_cov(modname)
